@@ -31,7 +31,11 @@ Record file : Type := mkFile {
   f_msgs : list msg;
   f_enums : list enum;
   f_services : list service;
-  f_rest : N                      (* everything else in the FileDescriptorProto *)
+  f_rest : N                      (* the whole FileDescriptorProto as a digest of its prost
+                                     encoding: the index never reads the other fields (types,
+                                     numbers, options, extensions, reserved ranges, source info,
+                                     dependencies, ...), but a file is stored and returned whole,
+                                     so two files are the same only if all their fields are *)
 }.
 Definition fds := list file.      (* FileDescriptorSet { file } *)
 
@@ -243,9 +247,9 @@ Inductive request : Type :=
 | NoMessageRequest                       (* message_request: None *)
 | FileByFilename (s : name)
 | FileContainingSymbol (s : name)
-| FileContainingExtension
-| AllExtensionNumbersOfType
-| ListServices.
+| FileContainingExtension (containing_type : name) (extension_number : Z)
+| AllExtensionNumbersOfType (type_name : name)
+| ListServices (content : name).
 Inductive response : Type :=
 | FileDescriptorResponse (f : file)      (* file_descriptor_proto: vec![encode(fd)] *)
 | AllExtensionNumbersResponse            (* ExtensionNumberResponse::default() *)
@@ -267,9 +271,9 @@ Definition answer (st : state) (r : request) : response + N :=
       | Some fd => inl (FileDescriptorResponse fd)
       | None => inr NOT_FOUND
       end
-  | FileContainingExtension => inr NOT_FOUND
-  | AllExtensionNumbersOfType => inl AllExtensionNumbersResponse
-  | ListServices => inl (ListServicesResponse (list_services st))
+  | FileContainingExtension _ _ => inr NOT_FOUND          (* "extensions are not supported" *)
+  | AllExtensionNumbersOfType _ => inl AllExtensionNumbersResponse
+  | ListServices _ => inl (ListServicesResponse (list_services st))
   end.
 
 (* What the spawned task sees, in its own order: a request, an error item of the request stream,
@@ -321,7 +325,7 @@ Definition obs_answer (a : response + N) : tr :=
   match a with
   | inr code => Nd [Nn 0; Nn code]
   | inl (FileDescriptorResponse f) => Nd [Nn 1; obs_file f]
-  | inl AllExtensionNumbersResponse => Nd [Nn 2]
+  | inl AllExtensionNumbersResponse => Nd [Nn 2; Bs []; Nd []]   (* base_type_name "", no numbers *)
   | inl (ListServicesResponse l) => Nd [Nn 3; olist Bs l]
   end.
 Definition obs_ending (e : ending) : tr := Nn (match e with Ended => 0 | Panic => 1 end).
